@@ -748,6 +748,13 @@ class EdgeQLSourceGenerator(codegen.SourceGenerator):
                 lambda m: '\\u{:04x}'.format(ord(m.group(0))),
                 edgeql_quote.quote_literal(node.value),
             ))
+        elif (
+            node.value.startswith('-')
+            and isinstance(node._parent, qlast.BinOp)  # type: ignore
+        ):
+            # the parser folds the sign into numeric constants;
+            # '-2 ^ 2' would re-parse as '-(2 ^ 2)'
+            self.write('(', node.value, ')')
         else:
             self.write(node.value)
 
